@@ -120,6 +120,7 @@ def sh(cmd, timeout=1800, cwd=None, env=None):
 def coq_make(targets: list[str], timeout=1500) -> tuple[bool, str]:
     """(Re)build the given .vo targets (paths relative to coq/) with a full make."""
     with Lock():
+        sh([str(VERIF / 'bin' / 'mkproject')])
         if not (COQ / 'Makefile').exists() or \
                 (COQ / '_CoqProject').stat().st_mtime > (COQ / 'Makefile').stat().st_mtime:
             rc, out = sh('coq_makefile -f _CoqProject -o Makefile', cwd=COQ)
@@ -142,7 +143,7 @@ class ModelRun:
         self.name = name
         self.exe = BUILD / f'modelrun_{name}'
 
-    def ask(self, requests: list[str], timeout=1800) -> list:
+    def ask(self, requests: list[str], timeout=600) -> list:
         if not requests:
             return []
         data = '\n'.join(requests) + '\n'
